@@ -29,7 +29,7 @@ Pick4(i, j, k, m) == Full \/ (i + 3 * j + 5 * k + 7 * m + Seed) % 4 = 0
 Pick5(i, j, k, m, n) == Full /\ (i + 3 * j + 5 * k + 7 * m + 11 * n + Seed) % 24 = 0
 
 (* hand-picked absurd inputs: numbers beyond every integer range, in every numeric position *)
-ExtraTexts == {"2020-01-01\n    9223372036854775807h\n",
+ExtraTexts == {"2020-01-01\n    9223372036854775807h\n", "2020-01-01\n    9223372036854775807m\n", "2020-01-01 (-9223372036854775807m!)\n    1h\n",
                "2020-01-01\n    9223372036854775807m\n    9223372036854775807m\n",
                "2020-01-01\n    -9223372036854775807m\n    -9223372036854775807m\n",
                "2020-01-01 (99999999999999999999h!)\n",
